@@ -38,7 +38,7 @@ class Module:
 
 
 def gen_graph(rng):
-  shape = rng.choice(['chain', 'diamond', 'tree', 'shared-base', 'shared-base', 'deep-paths'])
+  shape = rng.choice(['chain', 'diamond', 'tree', 'shared-base', 'shared-base', 'deep-paths', 'camel-case'])
   if shape == 'chain':
     paths = ['m1', 'm2', 'm3'][:rng.randint(2, 3)]
     edges = {paths[i]: [paths[i + 1]] for i in range(len(paths) - 1)}
@@ -54,6 +54,10 @@ def gen_graph(rng):
   elif shape == 'shared-base':
     paths = ['a.util', 'b.util'] + (['c.util'] if rng.random() < 0.4 else [])
     edges = {'a.util': ['b.util'] if rng.random() < 0.4 else []}
+    main_imports = list(paths)
+  elif shape == 'camel-case':
+    paths = ['pkg.dataSet', 'pkg2.dataSet', 'pkg.OtherLib']
+    edges = {'pkg.dataSet': ['pkg.OtherLib'] if rng.random() < 0.5 else []}
     main_imports = list(paths)
   else:
     paths = ['x.y.util', 'x.z.util', 'w.y.util']
@@ -249,6 +253,35 @@ def error_variants(rng, g):
   return out
 
 
+def completion_order(g):
+  """files in the order their parse completes (post-order over the import statements)"""
+  order, seen = [], set()
+
+  def visit(m):
+    for dep, _, _ in m.imports:
+      if dep not in seen:
+        seen.add(dep)
+        visit(g['mods'][dep])
+        order.append(dep)
+  visit(g['main'])
+  return order
+
+
+def job_prefixes(j):
+  main_text, root = j
+  class Probe(dict):
+    def __bool__(self):        # `parsed_imports or {}` must keep this (initially empty) dictionary
+      return True
+  probe = Probe()
+  with R.parser_mode('PY'):
+    try:
+      with R.quiet():
+        R.parse.ParseFile(main_text, parsed_imports=probe, import_root=root)
+    except Exception as e:  # noqa: BLE001
+      return {'error': '%s: %s' % (type(e).__name__, str(e)[:120])}
+  return {k: v['predicates_prefix'] for k, v in probe.items() if v}
+
+
 def job_error(j):
   kind, main_text, root, mode = j
   with R.parser_mode(mode):
@@ -291,6 +324,22 @@ def run(ck):
               continue
           for mode in (['PY'] if err else ['PY', 'CPP']):
             ejobs.append((kind, etext, eimp, mode))
+    # (K) the prefixes the real parser hands out vs Imports.assign over the files in completion order
+    pjobs = [(main_text, import_root) for (main_text, import_root, _, _, mode) in jobs if mode == 'PY']
+    pgraphs = [g for (g, _, _, mode, _) in meta if mode == 'PY']
+    preal = core.pmap(job_prefixes, pjobs)
+    pmodel = drv.ask_many([{'op': 'import_prefixes', 'files': [f.split('.') for f in completion_order(g)]} for g in pgraphs])
+    for g, real_p, model_p in zip(pgraphs, preal, pmodel):
+      ck.corr('import-prefixes-vs-model')
+      order = completion_order(g)
+      want = dict(zip(order, model_p)) if isinstance(model_p, list) else None
+      if 'error' in real_p or want is None:
+        if not ('error' in real_p and want is None):
+          ck.disagreement('import-prefixes-vs-model', {'files': order}, real_p, model_p)
+      elif real_p != want:
+        ck.disagreement('import-prefixes-vs-model', {'files': order}, real_p, want)
+      elif len(set(real_p.values())) != len(real_p):
+        ck.violation('c12:prefix-collision', 'two files share the prefix: %s' % real_p, {'files': order})
     models = drv.ask_parallel([semcheck.model_requests(flat, [p for p in flat.preds if p.name in preds])
                                for (g, flat, preds, mode, _) in meta if mode == 'PY'])
     mi = iter(models)
